@@ -680,6 +680,12 @@ func (e *engine) Run(src *vs.Source, tier string, idx int64) *simkit.RunResult {
 	per := 32
 	if tier == "thorough" {
 		per = 1024 // positions per fault kind for records that are not enumerated completely
+		if _, ok := desc["wide_members"]; ok {
+			// a wide record costs a validation of thousands of members per decode:
+			// at 1024 positions a single chunk of them kept one worker busy for
+			// an hour after the other fifteen had finished
+			per = 128
+		}
 	}
 	if exhaustive {
 		res.Stats["exhaustive_records"]++
